@@ -102,6 +102,17 @@ theorem tie_trashFields :
 theorem tie_pullFields :
     pullJSONStrings = ArvVerif.C05.pullFields.map (fun f => "json:\"" ++ f ++ "\"") := by decide
 
+/-- the model's JSON rendering uses exactly these keys, in this order -/
+theorem tie_trashJSON :
+    (ArvVerif.C05.TrashReq.json ⟨['h'], 7, ['u']⟩) =
+      "{" ++ ",".intercalate (List.zipWith (fun k v => "\"" ++ k ++ "\":" ++ v)
+        ArvVerif.C05.trashFields ["\"h\"", "7", "\"u\""]) ++ "}" := by decide
+
+theorem tie_pullJSON :
+    (ArvVerif.C05.PullReq.json ⟨['h'], [['s']], ['u']⟩) =
+      "{" ++ ",".intercalate (List.zipWith (fun k v => "\"" ++ k ++ "\":" ++ v)
+        ArvVerif.C05.pullFields ["\"h\"", "[\"s\"]", "\"u\""]) ++ "}" := by decide
+
 /-- field sources of a trash request: bare hash, the slot's observed mtime, the mount's UUID
 (`trashReq`) -/
 theorem tie_trashSources : trashJSONReturns =
